@@ -192,6 +192,9 @@ def ilp_cgdp(
 
     # One binary variable for computations c1 and c2, and agent a1 and a2
     betas = {}
+    # Number of links in which each couple (c1, c2) appears: distribution_cost
+    # counts the communication of a couple once for each of these links.
+    occurrences = {}
     count = 0
     for a1, a2 in combinations(agt_names, 2):
         # Only create variables for couple c1, c2 if there is an edge in the
@@ -199,6 +202,8 @@ def ilp_cgdp(
         for l in cg.links:
             # As we support hypergraph, we may have more than 2 ends to a link
             for c1, c2 in combinations(l.nodes, 2):
+                for k in ((c1, a1, c2, a2), (c1, a2, c2, a1)):
+                    occurrences[k] = occurrences.get(k, 0) + 1
                 if (c1, a1, c2, a2) in betas:
                     continue
                 count += 2
@@ -233,7 +238,7 @@ def ilp_cgdp(
 
     # Set objective: communication + hosting_cost
     pb += (
-        _objective(xs, betas, route, msg_load, hosting_cost),
+        _objective(xs, betas, route, msg_load, hosting_cost, occurrences),
         "Communication costs and prefs",
     )
 
@@ -277,12 +282,15 @@ def ilp_cgdp(
     return mapping
 
 
-def _objective(xs, betas, route, msg_load, hosting_cost):
+def _objective(xs, betas, route, msg_load, hosting_cost, occurrences=None):
     # We want to minimize communication and hosting costs
     # Objective is the communication + hosting costs
     comm = LpAffineExpression()
     for c1, a1, c2, a2 in betas:
-        comm += route(a1, a2) * msg_load(c1, c2) * betas[(c1, a1, c2, a2)]
+        nb_links = 1 if occurrences is None else occurrences[(c1, a1, c2, a2)]
+        comm += (
+            nb_links * route(a1, a2) * msg_load(c1, c2) * betas[(c1, a1, c2, a2)]
+        )
 
     costs = lpSum([hosting_cost(a, c) * xs[(c, a)] for c, a in xs])
 
